@@ -4,12 +4,13 @@ package main
 
 import (
 	"context"
-	"go/types"
 	"fmt"
+	"go/types"
 	"os"
 	"os/exec"
 	"path/filepath"
 	"regexp"
+	"sort"
 	"strings"
 	"sync"
 	"time"
@@ -89,7 +90,7 @@ func solveOne(vc *VC, o *Obligation, workDir string, idx int, secs int, seed int
 		close(doneWhole)
 	}()
 	adopt := func(src *Obligation) {
-		o.Status, o.Solver, o.Seconds, o.Output, o.Model, o.Size = src.Status, src.Solver, src.Seconds, src.Output, src.Model, src.Size
+		o.Status, o.Solver, o.Seconds, o.Output, o.Model, o.Size, o.Verdicts = src.Status, src.Solver, src.Seconds, src.Output, src.Model, src.Size, src.Verdicts
 	}
 	t0 := time.Now()
 	select {
@@ -209,6 +210,9 @@ func solveOne(vc *VC, o *Obligation, workDir string, idx int, secs int, seed int
 	o.Seconds = time.Since(t0).Seconds()
 }
 
+// thoroughAgreement: wait for the other solvers after the first verdict (thorough tier).
+var thoroughAgreement bool
+
 func solveVariant(parent context.Context, vc *VC, o *Obligation, workDir string, idx int, secs int, seed int, extra []string, suffix string) {
 	base := filepath.Join(workDir, fmt.Sprintf("%04d_%s", idx, safeNameRe.ReplaceAllString(o.Name, "_")))
 	if len(base) > 200 {
@@ -259,7 +263,70 @@ func solveVariant(parent context.Context, vc *VC, o *Obligation, workDir string,
 	}
 	var all []ans
 	decided := false
-	for range solvers {
+	if thoroughAgreement && !o.MustFail && suffix == "" {
+		// thorough tier: after the first verdict the other solvers get a grace
+		// period; every verdict is recorded, and contradictory verdicts make the
+		// obligation undecided
+		var first *ans
+		var grace <-chan time.Time
+		n := 0
+		for n < len(solvers) {
+			select {
+			case a := <-ch:
+				n++
+				all = append(all, a)
+				if first == nil && (a.status == "unsat" || a.status == "sat") {
+					f := a
+					first = &f
+					g := 3*a.secs + 2
+					if g > 10 {
+						g = 10
+					}
+					grace = time.After(time.Duration(g * float64(time.Second)))
+				}
+			case <-grace:
+				cancel()
+				n = len(solvers)
+			}
+		}
+		var vs []string
+		sat, unsat := 0, 0
+		for _, a := range all {
+			vs = append(vs, a.solver+":"+a.status)
+			if a.status == "sat" {
+				sat++
+			}
+			if a.status == "unsat" {
+				unsat++
+			}
+		}
+		sort.Strings(vs)
+		o.Verdicts = strings.Join(vs, " ")
+		if sat > 0 && unsat > 0 {
+			o.Status = "unknown"
+			o.Output = "solver disagreement: " + o.Verdicts
+			return
+		}
+		if first != nil {
+			all = []ans{*first}
+			ch2 := make(chan ans, 1)
+			ch2 <- *first
+			ch = ch2
+			all = nil
+		} else {
+			ch2 := make(chan ans, len(all))
+			for _, a := range all {
+				ch2 <- a
+			}
+			ch = ch2
+			all = nil
+		}
+	}
+	nWait := len(solvers)
+	if thoroughAgreement && !o.MustFail && suffix == "" {
+		nWait = len(ch)
+	}
+	for k := 0; k < nWait; k++ {
 		a := <-ch
 		all = append(all, a)
 		if a.status == "unsat" || a.status == "sat" {
